@@ -28,7 +28,7 @@ Definition head_is (iss : issued) (s : N) (data : list (N * unit)) : bool :=
   | [] => false
   end.
 
-Fixpoint apply_keys (g : list (N * unit)) (ann wd : list N) : list (N * unit) :=
+Definition apply_keys (g : list (N * unit)) (ann wd : list N) : list (N * unit) :=
   fold_left (fun s k => kremove k s) wd (fold_left (fun s k => kinsert k tt s) ann g).
 
 Definition opt_n_eqb (a b : option N) : bool :=
